@@ -179,7 +179,10 @@ class C12(BaseCheck):
         conn = conns[q['conn']]
         sends = conn.send_range_info(q['start'], q['end'])
         sent_any = True
-        late = [x for x in sends if x[2] > s]
+        # A write that had begun before the TimeoutError counts as "on the wire" (a stalled
+        # writer finishes the frame it started); the violation is a request whose first byte
+        # is written afterwards.
+        late = [x for x in sends if x[2] > s] if min(x[2] for x in sends) > s else []
         if late:
           out.violate('sent-after-timeout',
                       'call %d was handed TimeoutError %.4fs after issue (T=%.4f) and %d byte(s) of its request '
